@@ -44,6 +44,21 @@ def jWeights (j : Json) : Except String (Option (List Rat)) :=
 def errName : ArgError → String
   | .emptyInput => "emptyInput"
   | .weightsLength => "weightsLength"
+  | .notArray => "notArray"
+  | .missingLoc => "missingLoc"
+  | .missingScale => "missingScale"
+  | .keysDiffer => "keysDiffer"
+  | .badMethod => "badMethod"
+
+def jMalformed (s : String) : Except String Malformed :=
+  match s with
+  | "notArray" => .ok .notArray
+  | "emptyList" => .ok .emptyList
+  | "missingLoc" => .ok .missingLoc
+  | "missingScale" => .ok .missingScale
+  | "keysDiffer" => .ok .keysDiffer
+  | "badMethod" => .ok .badMethod
+  | _ => .error s!"unknown malformed kind {s}"
 
 /-- one verified-checker evaluation on real outputs: `{"k":"simplex"|"between"|"unc"|"range"|"totvar", "tol":rat, …}` -/
 def checkItem (j : Json) : Except String Bool := do
@@ -63,6 +78,9 @@ def checkItem (j : Json) : Except String Bool := do
 
 def handle (j : Json) : Except String Json := do
   let op ← (← field j "op").getStr?
+  if op == "validate" then
+    let m ← jMalformed (← (← field j "malformed").getStr?)
+    return Json.mkObj [("ok", true), ("err", errName (validate m))]
   if op == "check" then
     let items ← (← field j "items").getArr?
     let res ← items.toList.mapM checkItem
